@@ -92,7 +92,7 @@ def _scoped(i):
 
 def _none_plan(case, i):
     """(function name, term) of one invocation that returns None (every fifth case), or None."""
-    if i % 5 != 0:
+    if i % 5 != 0 or _huge(i):
         return None
     _, calls = mapgen.oracle(case)
     for f in case["funcs"]:
@@ -116,7 +116,7 @@ def _run_child(case, cfg, i, folder, out, use_pool):
             os.setpgid(0, 0)
             with contextlib.redirect_stdout(io.StringIO()), contextlib.redirect_stderr(io.StringIO()):
                 extra, dflt = _defaults_variant(case, i)
-                inputs = {k: v for k, v in mapgen.make_inputs(case).items() if k not in dflt}
+                inputs = {k: v for k, v in _inputs_of(case, i).items() if k not in dflt}
                 if _wraps(i):
                     import __main__
                     exec(SAMPLE_SRC, __main__.__dict__)  # noqa: S102
@@ -212,7 +212,7 @@ def _norm_ms(s):
 def compare(v, case, cfg, i, env, run, fresh, w):
     outs = [o for f in case["funcs"] for o in f["outs"]]
     extra, dflt = _defaults_variant(case, i)
-    given = {k: x for k, x in mapgen.make_inputs(case).items() if k not in dflt}
+    given = {k: x for k, x in _inputs_of(case, i).items() if k not in dflt}
     for where, d in (("same-process", run["same_process"]), ("fresh-process", fresh["first"])):
         for o in outs:
             v.count("outputs_compared")
@@ -225,6 +225,12 @@ def compare(v, case, cfg, i, env, run, fresh, w):
                       got=got[:400], returned=str(run["results"].get(o))[:400], **w)
             elif exp is not None and got != exp:
                 v.bad(f"load_outputs-differs-from-denotation/{where}", f"load_outputs({o}) {where} differs from denotation", got=got[:400], expected=exp[:400], **w)
+        for o, again in (d.get("outputs_after_mutation") or {}).items():
+            v.count("reloads_after_mutating_what_was_loaded")
+            if again != d["outputs"].get(o):
+                kind = "mapped" if any(o in f["outs"] and f["mapspec"] for f in case["funcs"]) else "single"
+                v.bad(f"load_outputs-changed-by-mutating-an-earlier-result/{where}/{kind}", f"load_outputs({o}) {where} after the array / list loaded before was "
+                      "changed in place differs from the first load", first=str(d["outputs"].get(o))[:300], again=str(again)[:300], **w)
         tg = d.get("outputs_together")
         if isinstance(tg, dict):
             v.count("load_outputs_calls_with_all_names")
@@ -289,12 +295,41 @@ def _large(i):
     return i % 12 == 10
 
 
+def _huge(i):
+    return i % 48 == 22
+
+
+def _inputs_of(case, i):
+    """The inputs of case i; 'huge' cases pad every array element so that each stored element pickles to more than 1 MiB."""
+    inp = mapgen.make_inputs(case)
+    if not _huge(i):
+        return inp
+    pad = "#" * 1_100_000
+
+    def big(x):
+        if isinstance(x, list):
+            return [big(y) for y in x]
+        if isinstance(x, np.ndarray):
+            if x.dtype != object:
+                return x
+            out = np.empty(x.shape, dtype=object)
+            for idx in np.ndindex(*x.shape):
+                out[idx] = big(x[idx])
+            return out
+        return x + pad if isinstance(x, str) else x
+    return {k: (big(x) if isinstance(x, (list, np.ndarray)) else x) for k, x in inp.items()}
+
+
 def _case(seed, i):
+    if _huge(i):
+        return mapgen.case_from_seed(seed, i, sizes={a: 2 for a in mapgen.AX}, max_funcs=2, allow_internal=False, allow_reduce=False, allow_tuple=False)
     if _large(i):
         # arrays of more than a thousand elements, several of them of the same size in one folder
         sizes = ({"i": 1100, "j": 1, "k": 1, "l": 1} if i % 24 == 10 else {"i": 37, "j": 31, "k": 1, "l": 1})
         return mapgen.case_from_seed(seed, i, sizes=sizes, max_funcs=3, allow_internal=False)
-    return mapgen.case_from_seed(seed, i, allow_picker=(i % 3 == 2))
+    # (i % 4 == 0: functions WITHOUT MapSpec that return a list / array which later MapSpecs index - a mutable value in a
+    #  single output file)
+    return mapgen.case_from_seed(seed, i, allow_picker=(i % 3 == 2), allow_autogen=(i % 4 == 0))
 
 
 def run_case(desc):
@@ -306,7 +341,9 @@ def run_case(desc):
         for i in range(desc["start"], desc["start"] + desc["n"]):
             case = _case(desc["seed"], i)
             npl = _none_plan(case, i)
-            env, _ = mapgen.oracle(case, none_terms=({npl[1]} if npl else ()))
+            env, _ = mapgen.oracle(case, _inputs_of(case, i), none_terms=({npl[1]} if npl else ()))
+            if _huge(i):
+                v.count("cases_with_elements_over_1MiB")
             if npl:
                 v.count("cases_with_a_None_valued_element")
             cfgs = CONFIGS if i % 3 == 0 else [CONFIGS[i % 5], CONFIGS[(i + 2) % 5]]
@@ -380,6 +417,8 @@ def finalize(agg, tier, seed):
     if agg.counters.get("folders_given_as_relative_path", 0) < 5 or agg.counters.get("folders_with_arrays_over_1000_elements", 0) < 5:
         floors.append(f"too few relative run folders / folders with large arrays ({agg.counters.get('folders_given_as_relative_path', 0)}, "
                       f"{agg.counters.get('folders_with_arrays_over_1000_elements', 0)})")
+    if agg.counters.get("cases_with_elements_over_1MiB", 0) < 2 or agg.counters.get("reloads_after_mutating_what_was_loaded", 0) < 100:
+        floors.append("too few cases with elements over 1 MiB / reloads after mutating what was loaded")
     if agg.counters.get("folders_built_in_stages", 0) < 10:
         floors.append(f"only {agg.counters.get('folders_built_in_stages', 0)} folders built up in stages (< 10)")
     if agg.counters.get("skipped_run_refused", 0) * 3 > max(1, agg.counters.get("folders_written", 0)):
